@@ -164,6 +164,12 @@ def expected_words(w, sb):
         if text == "~" or text.startswith("~/"):
             return [(_home_value(sb) if _home else sb.home) + text[1:]]
         return [text]
+    if kind == "brace-range":
+        # the comma group first, then the range pass on each resulting word
+        out = []
+        for x in brace_expand(text):
+            out += range_expand(x)
+        return out
     if kind == "brace-glob":
         # the alternatives first, then each resulting word is a pattern of its own
         out = []
@@ -334,6 +340,10 @@ def gen_word(rng):
         t, f = gen_brace(rng)
         t = rng.choice(["{" + t, "{x" + t, "a{b" + t, "{{" + t, t + "{c", "{" + t + "{"])
         return {"kind": "brace", "text": t, "feat": "lone-open-brace-next-to-a-complete-group"}
+    if k < 0.345:
+        # a range, or a group without a comma, as one alternative of a comma group
+        t = rng.choice(["{a,{1..3}}", "f{A,B,{1..3}}.txt", "{{1..2},x}", "{a,b{c}}", "{x,{3..1}}y", "p{{2..4..2},q}", "{a,{b}}"])
+        return {"kind": "brace-range", "text": t, "feat": "range-or-comma-less-group-as-alternative"}
     if k < 0.38:
         t = rng.choice(["{a}", "{a,b", "a,b}", "{}", "}{", "{a}{b}", "x{a}y", "{,", "a{b", "{a}b,c", "{a},{b}", "x{a},y{b}", "a,{b}", "{a}{b,c}", "{a,b}{c}"])
         return {"kind": "brace", "text": t, "feat": "negative-no-list"}
